@@ -426,3 +426,48 @@ fn c02_tick_uses_time_of_current_phase() {
     vcover!(before.state == State::Decay, "witness: decay");
     vcover!(before.state == State::Release, "witness: release");
 }
+
+// =====================================================================
+// C17  public operations: no panic, progress
+// =====================================================================
+
+// @harness prop=C17 tier=quick timeout=1500
+// @about public API only: Adsr::new(fs) for any f32 sample rate in [100, 192000]; all four inputs set from ANY f32 bit pattern (finite, subnormal, NaN, inf -- clamped by the conversions); gate_on, tick, tick, gate_off, tick in that order with the calls individually enabled by symbolic flags: no panic, no arithmetic overflow, no out-of-bounds table index (Kani's built-in checks are the assertion) and value() in [0,1] after every call
+#[kani::proof]
+fn c17_adsr_public_ops_no_panic() {
+    let fs: f32 = kani::any();
+    kani::assume(fs >= 100.0 && fs <= 192_000.0);
+    let mut a = Adsr::new(fs);
+    let (x0, x1, x2, x3): (f32, f32, f32, f32) = (kani::any(), kani::any(), kani::any(), kani::any());
+    a.set_input(Input::Attack(x0.into()));
+    a.set_input(Input::Decay(x1.into()));
+    a.set_input(Input::Sustain(x2.into()));
+    a.set_input(Input::Release(x3.into()));
+    let flags: u8 = kani::any();
+    if flags & 1 != 0 { a.gate_on(); }
+    a.tick();
+    vassert!(a.value() >= 0.0 && a.value() <= 1.0, "C17/adsr/value-in-[0,1]-after-first-tick");
+    if flags & 2 != 0 { a.tick(); }
+    if flags & 4 != 0 { a.gate_off(); }
+    if flags & 8 != 0 { a.gate_on(); }
+    a.tick();
+    vassert!(a.value() >= 0.0 && a.value() <= 1.0, "C17/adsr/value-in-[0,1]-after-last-tick");
+    vcover!(x0.is_nan() && flags & 1 != 0, "witness: NaN attack time, gate on");
+    vcover!(x3 == f32::INFINITY && flags & 4 != 0, "witness: infinite release time, gate off");
+    vcover!(fs == 100.0, "witness: lowest rate");
+}
+
+// @harness prop=C17,C02 tier=quick timeout=1500
+// @about progress for every configuration: any f32 sample rate in [100, 192000], any time in [0.001, 20] s (both symbolic f32): set_period installs an increment >= 1 and <= 10*2^24+64, so by c17_tick_progress every tick of a timed phase either ends it or strictly advances the 24-bit counter: every attack/decay/release ends after at most 2^24 ticks and tick() cannot overflow
+#[kani::proof]
+fn c17_increment_positive_and_bounded() {
+    let fs: f32 = kani::any();
+    kani::assume(fs >= 100.0 && fs <= 192_000.0);
+    let t = any_time();
+    let mut p = PhaseAccumulator::<24, 10>::new(fs);
+    p.set_period(t.0);
+    vassert!(p.verif_inc() >= 1, "C17/increment/at-least-one-step-so-every-phase-ends");
+    vassert!(p.verif_inc() <= 10 * (1 << 24) + 64, "C17/increment/within-the-bound-tick-is-proved-for");
+    vcover!(t.0 == 20.0 && fs == 192_000.0, "witness: slowest phase");
+    vcover!(t.0 == 0.001 && fs == 100.0, "witness: fastest phase");
+}
